@@ -6,7 +6,8 @@
    Path matching (paths.matcher.Matcher) is a PARAMETER: a rule's path and a
    configuration's l10n paths are abstract matchers with
    [matches m locale file] = `m.with_env({"locale": locale}).match(file.fullpath)
-   is not None`.  The user's regular expressions (`re:` keys) are compiled by
+   is not None` (an empty dictionary, returned for a pattern without variables
+   or wildcards, is a match).  The user's regular expressions (`re:` keys) are compiled by
    the parameter [compile_re] (CPython's re.compile; None = re.error).
    Entity keys are strings (a PO (msgid, msgctxt) tuple makes
    `rule["key"].match(entity)` raise TypeError; tuples are outside the model's
@@ -251,7 +252,7 @@ Fixpoint scan_rules (rs : list crule) (f : file) (ent : option str) : action :=
            end
   end.
 
-(* `if any(p.match(fullpath) for p in cached.l10n_paths): ... actions.add(action)` *)
+(* `if any(p.match(fullpath) is not None for p in cached.l10n_paths): ... actions.add(action)` *)
 Definition own_action (ch : fcache) (f : file) (ent : option str) : option action :=
   if existsb (fun p => bmatch p f) (fc_paths ch)
   then Some (scan_rules (rev (fc_rules ch)) f ent)
